@@ -12,6 +12,10 @@ for d in sorted(glob.glob(os.path.join(here, 'seeded', 'C*'))):
     if only and sid not in only:
         continue
     pid = sid.split('-')[0]
+    if os.path.exists(os.path.join(d, 'RETIRED')):
+        res[sid] = {'retired': True}
+        print(sid, 'retired (see seeded/%s/RETIRED)' % sid, flush=True)
+        continue
     work = tempfile.mkdtemp(prefix='seedreg_', dir='/tmp')
     try:
         tree = os.path.join(work, 'repo')
@@ -33,4 +37,5 @@ os.makedirs(os.path.join(here, 'out'), exist_ok=True)
 json.dump(res, open(os.path.join(here, 'out', 'seed_regress.json'), 'w'), indent=1)
 subprocess.run(['git', '-C', here, 'checkout', '--', 'evidence'], capture_output=True)
 n = sum(1 for r in res.values() if r.get('detected'))
-print('%d of %d seeded changes detected by the quick tier of their own check' % (n, len(res)))
+live = sum(1 for r in res.values() if not r.get('retired'))
+print('%d of %d live seeded changes detected by the quick tier of their own check (%d retired)' % (n, live, len(res) - live))
